@@ -974,7 +974,7 @@ def remap_from_lambda(
     orig_type = o_stream.item_type
     var_name = l_func.args.args[0].arg
     stream, new_body, return_type = remap_by_types(
-        o_stream, {var_name: orig_type} | known_types, l_func.body
+        o_stream, known_types | {var_name: orig_type}, l_func.body
     )
     return stream, ast.Lambda(l_func.args, new_body), return_type  # type: ignore
 
